@@ -241,8 +241,16 @@ package rapidcore
 // reset that ends a stalled invocation therefore reaches the sandbox reset (which kills the runtime and so ends that read)
 // without taking that mutex itself
 //@ event ServerMutexLocked = call sync.(*Mutex).Lock
+// C05 ("answered within the timeout plus a bounded reset allowance", "every process ... is terminated"): the deadline that goes
+// with the reset is a reading of the monotonic clock plus the allowance, because that is the clock the teardown subtracts from it
+// (rapid's shutdown: availableNs = deadlineNs - Monotime()); a deadline on any other clock makes the allowance meaningless
+//@ event MonotimeValue = ret metering.Monotime
+//@ event ResetDeadlineComputed = call rapidcore.deadlineNsFromTimeoutMs
+//@ func deadlineNsFromTimeoutMs
+//@   ensures [C05: the-reset-deadline-is-the-monotonic-clock-plus-the-allowance] delta(MonotimeValue) == 1 && (0 <= timeoutMs && timeoutMs <= 1000000000 && lastret(MonotimeValue) <= 4611686018427387904 ==> r0 == lastret(MonotimeValue) + timeoutMs * 1000000)
 //@ func (*Server).Reset
 //@   requires s != nil
+//@   ensures [C05: the-reset-deadline-is-computed-from-the-allowance-it-was-given] delta(ResetDeadlineComputed) == 1 && lastarg(ResetDeadlineComputed, 0) == timeoutMs && first(ResetDeadlineComputed) < first(ResetWorkerStarted)
 //@   ensures [C07: the-reset-does-not-wait-for-the-server-mutex] delta(ServerMutexLocked) == 0
 //@   ensures [returns-after-the-done-of-its-worker] delta(ResetWorkerStarted) == 1 && delta(ResetDoneSeen) == 1 && first(ResetWorkerStarted) < first(ResetDoneSeen)
 // C10: the worker clears the server (Clear gives the reservation back) before it reports done; whatever is reserved when the
@@ -256,6 +264,18 @@ package rapidcore
 
 // C05: when the initialisation failed or was interrupted by the reset of a timed-out cold start, the sandbox is torn down
 // (Shutdown) before the reserved invocation is dispatched, so that it is served by processes started afterwards
+// C06 ("a failure reported during initialisation is kept for the first invocation"): the goroutine that relays the outcome of the
+// initialisation acknowledges it exactly once, forwards a failure exactly once to whoever awaits the initialisation, and closes the
+// channel afterwards in every case (a later await then sees "initialised" instead of blocking); a success is never forwarded
+//@ event InitOutcomeAwaited = ret interop.(InitContext).Wait
+//@ event InitOutcomeFailed = ret interop.(InitContext).Wait when r1 != nil
+//@ event InitFailureForwarded = send rapidcore.Server.initFailures
+//@ event InitFailuresClosed = close rapidcore.Server.initFailures
+//@ event InitFailureAcked = send interop.InitFailure.Ack
+//@ event InitSuccessAcked = send interop.InitSuccess.Ack
+//@ func (*Server).awaitInitCompletion
+//@   requires s != nil
+//@   ensures [C06: the-outcome-is-acknowledged-once-and-a-failure-forwarded-once-before-the-channel-is-closed] delta(InitOutcomeAwaited) == 1 && delta(InitFailuresClosed) == 1 && delta(InitFailureAcked) == delta(InitOutcomeFailed) && delta(InitSuccessAcked) == 1 - delta(InitOutcomeFailed) && delta(InitFailureForwarded) == delta(InitOutcomeFailed) && (delta(InitFailureForwarded) == 1 ==> first(InitFailureForwarded) < first(InitFailuresClosed))
 //@ event AwaitInitialized = ret rapidcore.(*Server).awaitInitialized
 //@ event InitFailedSeen = ret rapidcore.(*Server).awaitInitialized when r1 != nil
 //@ event ServerShutdown = call rapidcore.(*Server).Shutdown
